@@ -61,6 +61,8 @@ pub enum Op {
     RemoveMinter { who: u8 },
     TransferOwnership { to: u8, via_set_admin: bool },
     Advance(u8),
+    /// the owner upgrades the token and completes the migration: balances, allowances, minters and supply are carried over
+    UpgradeAndMigrate,
 }
 
 #[derive(Clone, Debug, Serialize, Deserialize)]
@@ -117,6 +119,7 @@ fn op() -> impl Strategy<Value = Op> {
         1 => idx().prop_map(|who| Op::RemoveMinter { who }),
         1 => (idx(), any::<bool>()).prop_map(|(to, via_set_admin)| Op::TransferOwnership { to, via_set_admin }),
         4 => (0u8..60).prop_map(Op::Advance),
+        1 => Just(Op::UpgradeAndMigrate),
     ]
 }
 
@@ -266,6 +269,12 @@ impl Property for C12 {
             let expect: Expect;
             let ok: bool;
             match op {
+                Op::UpgradeAndMigrate => {
+                    upgrade_and_migrate(&env, &token.address).map_err(|e| format!("step {}: {}", step, e))?;
+                    env.mock_all_auths();
+                    cx.label("upgrade_and_migration_in_history");
+                    continue;
+                }
                 Op::Advance(n) => {
                     if advanced + *n as u32 > 3500 {
                         continue;
